@@ -43,11 +43,12 @@ func (f FaultPlan) String() string {
 var FaultFinalHook func(s *Sys, shown *Model) []Violation
 
 type FaultResult struct {
-	Viol     []Violation
-	FaultOps int    // faultable steps seen (in the fault-free dry run this sizes the enumeration)
-	HitOp    string // the step that failed
-	Failed   int    // calls that returned an error
-	Outcome  string
+	Viol        []Violation
+	FaultOps    int    // faultable steps seen (in the fault-free dry run this sizes the enumeration)
+	HitOp       string // the step that failed
+	Failed      int    // calls that returned an error
+	Outcome     string
+	CrashImages int // images of a power loss at the end of the run that were recovered and compared
 }
 
 func modelSetSig(ms []*Model) string {
@@ -135,7 +136,9 @@ func RunFault(cfg Config, ops []Op, cont func(m *Model, failed *Op) []Op, fp *Fa
 			opened = true
 			return true
 		}
-		check := func(what string, legal []*Model) *Obs {
+		var checkOn func(on *Sys, what string, legal []*Model) *Obs
+		check := func(what string, legal []*Model) *Obs { return checkOn(sys, what, legal) }
+		checkOn = func(on *Sys, what string, legal []*Model) *Obs {
 			hf, hl := uint64(0), uint64(0)
 			for _, m := range legal {
 				if m.Last > hl {
@@ -146,7 +149,7 @@ func RunFault(cfg Config, ops []Op, cont func(m *Model, failed *Op) []Op, fp *Fa
 				}
 			}
 			d.FaultPaused = true
-			o := sys.Observe(hf, hl)
+			o := on.Observe(hf, hl)
 			d.FaultPaused = false
 			okLog, okStable := false, false
 			for _, m := range legal {
@@ -178,7 +181,32 @@ func RunFault(cfg Config, ops []Op, cont func(m *Model, failed *Op) []Op, fp *Fa
 					return nil
 				}
 			}
+			logFrom := len(d.Log)
 			err := sys.Apply(op)
+			if err == nil && op.K == "A" {
+				// the durability discipline at this acknowledgement, whatever failed earlier: every byte written for
+				// the call is followed by an fsync of its file, and a file it wrote to that was created since the
+				// last directory fsync has had one by now (a crash right here must not lose what was acknowledged)
+				written := map[int]bool{}
+				for _, o := range d.Log[logFrom:] {
+					if o.Kind == simdisk.OpWrite {
+						written[o.Ino] = true
+					}
+				}
+				if len(written) > 0 {
+					r := simdisk.NewReplay(simdisk.NewState(), d.BaseIno)
+					for _, o := range d.Log {
+						r.Apply(o)
+					}
+					for ino := range written {
+						if n, cp, name := r.Unsynced(ino); n > 0 {
+							out.Viol = append(out.Viol, Violation{Prop: "C07", Msg: fmt.Sprintf("step %d %s returned nil while %d 8-byte chunks written to file #%d are not followed by an fsync of that file", i, op, n, ino)})
+						} else if cp {
+							out.Viol = append(out.Viol, Violation{Prop: "C07", Msg: fmt.Sprintf("step %d %s returned nil after writing into %s, whose creation is not followed by a successful fsync of the directory: a power loss now loses the file and the entries just acknowledged", i, op, name)})
+						}
+					}
+				}
+			}
 			if trace {
 				d.Mark(simdisk.OpNote, i, fmt.Sprintf("step %d %s returned %v (faultable steps so far %d)", i, op, err, d.FaultOps))
 			}
@@ -260,9 +288,68 @@ func RunFault(cfg Config, ops []Op, cont func(m *Model, failed *Op) []Op, fp *Fa
 		if d.FaultHit != nil {
 			out.HitOp = d.FaultHit.String()
 		}
-		// clear the fault, reopen cleanly
+		// clear the fault
 		d.FaultAt = -1
 		d.FaultPersistent = false
+		// power loss right here, after every call has returned: every image in which each un-fsynced write and
+		// directory operation has landed completely or not at all (failed, un-fsynced writes over the same bytes
+		// tearing into each other is not what the properties speak about) is recovered on a copy; it must open and show a durable candidate (what was acknowledged - before or
+		// after the failure - is there, a failed call is applied in full or not at all)
+		if fp != nil && d.FaultHit != nil {
+			r := simdisk.NewReplay(simdisk.NewState(), d.BaseIno)
+			for _, o := range d.Log {
+				r.Apply(o)
+			}
+			if !r.NothingPending() {
+				legal := withLate(dur)
+				seen := map[string]bool{}
+				r.EnumerateWholeWrites(5, func(img *simdisk.State, info simdisk.ImageInfo) bool {
+					h := img.Hash()
+					if seen[h] {
+						return true
+					}
+					seen[h] = true
+					out.CrashImages++
+					s2 := Mount(img, cfg)
+					defer s2.Unmount()
+					if err := s2.Open(); err != nil {
+						bad("power loss after the faulted run (%s; %s): Open fails: %v", r.PendingSummary(), info.Desc, err)
+						return len(out.Viol) < 4
+					}
+					vsched.Quiesce()
+					// entries that every durable candidate holds with the same content (what was acknowledged and
+					// not truncated since) must be there, intact and inside [First, Last]; what never was
+					// acknowledged is not judged here (two failed, un-fsynced writes over the same bytes can
+					// tear into each other: that is outside what the property states)
+					hl := uint64(0)
+					for _, m := range legal {
+						if m.Last > hl {
+							hl = m.Last
+						}
+					}
+					o := s2.Observe(1, hl)
+					for idx, want := range legal[0].E {
+						common := true
+						for _, m := range legal[1:] {
+							if g := m.E[idx]; g == nil || !LogsEqual(g, want) || idx < m.First || idx > m.Last {
+								common = false
+							}
+						}
+						if !common || idx < legal[0].First || idx > legal[0].Last {
+							continue
+						}
+						if got := o.logs[idx]; got == nil || !LogsEqual(got, want) || idx < o.First || idx > o.Last {
+							bad("power loss after the faulted run (%s; %s): acknowledged entry %d is not there after recovery: WAL shows %s, durable candidates %s", r.PendingSummary(), info.Desc, idx, o.Sig(), modelSetSig(legal))
+							break
+						}
+					}
+					s2.W.Close()
+					vsched.Quiesce()
+					return len(out.Viol) < 4
+				})
+			}
+		}
+		// reopen cleanly
 		if opened && sys.W != nil {
 			sys.W.Close()
 			vsched.Quiesce()
